@@ -40,9 +40,7 @@ def split_bytes_given_slice_len(xbytes: bytes, slice_len_list: list) -> list:
                          "the sum of the individual values of slice_len_list")
     result = []
     c = 0
-    slice_len_accumulation = itertools.accumulate(slice_len_list)
-    while c != len(xbytes):
-        next_c = next(slice_len_accumulation)
+    for next_c in itertools.accumulate(slice_len_list):
         result.append(xbytes[c: next_c])
         c = next_c
     return result
